@@ -94,6 +94,21 @@ macro_rules! flags_reg {
             fsets.push(*b);
             fsets.push(all & !*b);
         }
+        // every pair of flags (no combination of two flags is special); thorough: every subset of the first 11 flags
+        for (i, (_, b1)) in $tab.iter().enumerate() {
+            for (_, b2) in $tab.iter().skip(i + 1) {
+                fsets.push(*b1 | *b2);
+            }
+        }
+        fsets.sort_unstable();
+        fsets.dedup();
+        let mut subsets: Vec<u64> = Vec::new();
+        if $a.thorough() {
+            let k = $tab.len().min(11);
+            for sub in 0..(1u32 << k) {
+                subsets.push($tab.iter().take(k).enumerate().filter(|(i, _)| sub >> i & 1 == 1).fold(0u64, |x, (_, y)| x | y.1));
+            }
+        }
         for old in thin($a, contents()) {
             cpu().$slot[$n] = old;
             // read_raw / read
@@ -104,8 +119,9 @@ macro_rules! flags_reg {
                     $t.bad($name, "typed-read-is-not-the-modelled-bits", &case, format!("{:x?}", rv));
                 }
             }
-            for &f in &fsets {
-                if !$a.thorough() && f.count_ones() > 1 && f != all && (old.count_ones() > 1 && old.count_ones() < 63) {
+            let simple_prior = !(old.count_ones() > 1 && old.count_ones() < 63);
+            for &f in fsets.iter().chain(subsets.iter().filter(|_| simple_prior)) {
+                if !$a.thorough() && f.count_ones() > 1 && f != all && !simple_prior {
                     continue;
                 }
                 cpu().$slot[$n] = old;
